@@ -27,6 +27,11 @@ pub type Kmer8v = VarIntKmer<u16, KF8>;
 pub type Kmer16v = VarIntKmer<u32, KF16>;
 pub type Kmer32v = VarIntKmer<u64, KF32>;
 pub type Kmer64v = VarIntKmer<u128, KF64>;
+// ... and VarIntKmer types whose storage integer is much wider than needed (one wide backing type
+// serving every K)
+pub type Kmer6w = VarIntKmer<u64, K6>;
+pub type Kmer12w = VarIntKmer<u128, K12>;
+pub type Kmer20w = VarIntKmer<u128, K20>;
 
 /// Call `$f::<K>($args)` for the k-mer type named `$name`.
 #[macro_export]
@@ -40,3 +45,4 @@ macro_rules! with_k {
 }
 
 pub use simcore::spec::k_of;
+pub use simcore::userkmer::{Kmer33u, Kmer7u, Kmer80u};
